@@ -262,6 +262,9 @@ def splice(cur_src, annot_src, fname, log):
     nc = [_norm(x) for x in cur]
     identical = nb == nc
     after = {}  # cur index -> list of blocks inserted after that line (-1 = before first)
+    # how the current text differs from the annotated baseline: lines of small in-place edits (same number of lines,
+    # at most 3 in a row) vs lines in regions where statements were added, removed or moved (1-based current lines)
+    changed = {'edit': set(), 'struct': set()}
     if identical:
         for (k, lines, no) in blocks:
             after.setdefault(k, []).append((lines, no))
@@ -269,6 +272,15 @@ def splice(cur_src, annot_src, fname, log):
         sm = difflib.SequenceMatcher(a=nb, b=nc, autojunk=False)
         mapping = {}
         for tag, i1, i2, j1, j2 in sm.get_opcodes():
+            if tag != 'equal':
+                blank_only = all(x == '' for x in nb[i1:i2]) and all(x == '' for x in nc[j1:j2])
+                comment_only = all(x == '' or x.startswith('//') for x in nb[i1:i2]) and all(x == '' or x.startswith('//') for x in nc[j1:j2])
+                if not (blank_only or comment_only):
+                    small = tag == 'replace' and (i2 - i1) == (j2 - j1) and (j2 - j1) <= 3
+                    kind = 'edit' if small else 'struct'
+                    lo, hi = (j1, j2) if j2 > j1 else (max(j1 - 1, 0), min(j1 + 1, len(nc)))
+                    for j in range(lo, hi):
+                        changed[kind].add(j + 1)
             if tag == 'equal':
                 for d in range(i2 - i1):
                     mapping[i1 + d] = j1 + d
@@ -297,7 +309,7 @@ def splice(cur_src, annot_src, fname, log):
         for (lines, no) in after.get(idx, []):
             for d, l in enumerate(lines):
                 out.append((('ann', no + d), l))
-    return out, identical
+    return out, identical, changed
 
 
 def _first_word(s):
@@ -499,7 +511,7 @@ def mirror_module(name, features, log, src_dir=None):
     if not os.path.exists(apath):
         raise Undecided('no annotation file for module %s' % name)
     annot = open(apath).read()
-    lines, identical = splice(src, annot, name + '.rs', log)
+    lines, identical, changed = splice(src, annot, name + '.rs', log)
     lines = hoist(lines, name + '.rs')
     # strip the `//@` marker is already done; now resolve cfg on the spliced text, keeping line origins:
     text = '\n'.join(t for (_, t) in lines)
@@ -507,6 +519,7 @@ def mirror_module(name, features, log, src_dir=None):
     # recompute origins after cfg removal by aligning lines (removal only)
     origins = _realign([t for (_, t) in lines], [o for (o, _) in lines], text2.split('\n'))
     return {'name': name, 'raw_sha256': sha(raw), 'identical_to_baseline': identical,
+            'changed': {k: sorted(v) for k, v in changed.items()},
             'lines': list(zip(origins, text2.split('\n')))}
 
 
@@ -619,7 +632,7 @@ def build(features=ALL_FEATURES, modules=None, src_dir=None):
     infos = []
     for m in modules:
         info = mirror_module(m, features, log, src_dir)
-        infos.append({k: info[k] for k in ('name', 'raw_sha256', 'identical_to_baseline')})
+        infos.append({k: info[k] for k in ('name', 'raw_sha256', 'identical_to_baseline', 'changed')})
         emit('pub mod %s {' % m, ('gen', 0))
         emit('use vstd::prelude::*;', ('gen', 0))
         emit('#[allow(unused_imports)] use crate::verif_specs::*;', ('gen', 0))
